@@ -43,7 +43,7 @@ type BatchResult struct {
 	Layer      string           `json:"layer"`
 	Runs       int              `json:"runs"`
 	Counters   map[string]int64 `json:"counters"`
-	SimNanos   int64            `json:"sim_nanos"`
+	SimSeconds float64          `json:"sim_seconds"`
 	Hashes     []string         `json:"hashes"` // distinct event-log hashes of non-trivial runs
 	Samples    []Sample         `json:"samples"`
 	Violations []Found          `json:"violations"`
@@ -256,7 +256,7 @@ func batch(t *testing.T, p *Prop) {
 		for c, v := range out.Counters {
 			res.Counters[c] += v
 		}
-		res.SimNanos += out.SimNanos
+		res.SimSeconds += float64(out.SimNanos) / 1e9
 		if out.Trouble != "" {
 			res.Troubles = append(res.Troubles, fmt.Sprintf("seed %d: %s", seed, out.Trouble))
 			if len(res.Troubles) > 20 {
